@@ -14,10 +14,12 @@ package keystore
 //@   trusted
 //@   requires km != nil
 
+// ownsAddr(a, s): the keystore a manages the address s (its address index holds it)
 //@ func (*AddrManager).Address
 //@   trusted
 //@   requires a != nil
 //@   ensures (result1 == nil) == (result0 != nil)
+//@   ensures (result1 == nil) == ghostb("ownsAddr", a, addr)
 
 //@ func (*KeystoreManager).GetAddrManager
 //@   trusted
